@@ -27,6 +27,7 @@ theorem C06_overflow (l : List Entry) (h : 2 ^ 64 ≤ (l.map (·.stake)).sum) :
     closeReg l = .overflow := by
   unfold closeReg; simp [h]
 
+/- VACUITY AUDIT: no longer an obligation of the check. `avk H l = avk H l`: the same function applied to the same arguments (rfl); that every node runs this one function is what K checks. Replaced by: - (K). -/
 /-- the three computation paths (signer, aggregator, client) call the same function `SignerBuilder::new`
 → `close_registration` of the same arguments: in the model they are literally one definition; the
 content of this clause is the correspondence run on the real entry points -/
